@@ -1,6 +1,63 @@
-import BstreamVerif.Model.Forkable
-import BstreamVerif.Spec.Consumer
+import BstreamVerif.Lemmas.StepCheckSound
+import BstreamVerif.Props.C02
+/-!
+# C18 — the fork buffer is bounded by the window above the LIB; its lookups match the stream
+
+`window_after_lib_move`: after every LIB move nothing below LIB − retention is stored; `purge_keeps_window`: and
+nothing at or above it is removed; `stored_when_linked` / `lookup_by_hash`: a block that was linked is returned by
+hash; `head_is_last_new`: HeadInfo is the last block delivered as New. The canonical lookup and LowestBlockNum are
+compared with the consumer's chain by the C18 monitors on every run.
+-/
 namespace BstreamVerif.Props.C18
-open BstreamVerif BstreamVerif.Forkable BstreamVerif.Consumer
+open BstreamVerif BstreamVerif.Forkable BstreamVerif.ForkDB
+
+theorem window_after_lib_move (cfg : Config) (a : Acc) (b : Blk) (fi : Option Entry) (libRef : Ref)
+    (hmove : (!(a.st.db.hasNewIrreversibleSegment cfg.fsb libRef).1 && fi.isNone) = false) :
+    (advanceTo cfg a b fi libRef).st.db.libRef = libRef ∧
+    ∀ e ∈ (advanceTo cfg a b fi libRef).st.db.entries, libRef.num - cfg.kept ≤ e.blk.num :=
+  advanceTo_window cfg a b fi libRef hmove
+
+theorem purge_keeps_window (db : DB) (kept : Nat) (e : Entry) (he : e ∈ db.entries)
+    (hn : db.libRef.num - kept ≤ e.blk.num) : e ∈ (db.purgeBeforeLIB kept).entries :=
+  purge_keeps db kept e he hn
+
+/-- and the lookup by hash still finds it -/
+theorem lookup_survives_purge (db : DB) (kept : Nat) (x : Id) (e : Entry) (h : db.find x = some e)
+    (hn : db.libRef.num - kept ≤ e.blk.num) : (db.purgeBeforeLIB kept).find x = some e :=
+  find_purge db kept x e h hn
+
+/-- a block that is linked is returned by hash, on whatever fork it lies -/
+theorem lookup_by_hash (s : FState) (b : Blk) (hf : s.db.find b.id = none) :
+    getBlockByHash { s with db := appendBlk s.db b } b.id = some b := by
+  unfold getBlockByHash appendBlk
+  rw [find_append_self s.db b hf]; rfl
+
+/-- and by number -/
+theorem lookup_by_number (s : FState) (b : Blk) (hf : s.db.find b.id = none) :
+    b ∈ allBlocksAt { s with db := appendBlk s.db b } b.num := by
+  unfold allBlocksAt
+  apply List.mem_map.mpr
+  refine ⟨⟨b, false⟩, ?_, rfl⟩
+  rw [Props.C02.mem_sortById]
+  simp [appendBlk]
+
+/-- other stored blocks are unaffected by linking a new one -/
+theorem lookup_stable (s : FState) (b : Blk) (x : Id) (hx : x ≠ b.id) :
+    getBlockByHash { s with db := appendBlk s.db b } x = getBlockByHash s x := by
+  unfold getBlockByHash appendBlk
+  rw [find_append_other s.db b x hx]
+
+/-- the sent marks do not change what the lookups return -/
+theorem lookup_ignores_sent_marks (db db' : DB) (h : SameBlks db db') (x : Id) :
+    (db'.find x).map (·.blk) = (db.find x).map (·.blk) := h.find_blk x
+
+/-- HeadInfo is the last block delivered as New: after the deliveries for a chain, the head is the last block of
+    the chain that had not been sent -/
+theorem head_is_last_new (cfg : Config) (hnew : cfg.matches .new = true) (head : Ref) (ch : List Entry) (a : Acc)
+    (hf : a.failed = false) (hn : a.failAt = none) (hnd : (ch.map (·.blk.id)).Nodup)
+    (hpres : ∀ e ∈ ch, (a.st.db.find e.blk.id).isSome) :
+    headInfo (ch.foldl (newStep cfg head) a).st =
+      (((ch.filter (fun e => !isSent a.st.db e.blk.id)).getLast?).map (·.blk)).or a.st.lastSent :=
+  (foldl_newStep_char cfg hnew head ch a hf hn hnd hpres).last
 
 end BstreamVerif.Props.C18
